@@ -186,14 +186,159 @@ def e6_pub_fields(src, report):
     return src
 
 
+import os
+E13_ENABLED = os.environ.get("VERIF_E13", "0") != "0"
+
+
+class _NoE13(Exception):
+    """The function does not have the shape E13 rewrites; it stays E8 (external, assumed contract)."""
+
+
+def _labelled_blocks(ix, lo, hi):
+    """token indices i with st[i] = 'ordered_choice, st[i+1] = ':', st[i+2] = '{' inside (lo, hi)."""
+    st = ix.st
+    return [i for i in range(lo, hi - 2) if st[i].k == "life" and st[i].t == "'ordered_choice" and st[i + 1].t == ":" and st[i + 2].t == "{"]
+
+
+def e13_ordered_choice(src, report):
+    """E13: an ordered choice is emitted as a labelled block whose alternatives are immediately
+    invoked closures:
+
+        'ordered_choice: { ..  if (|| { BODY; Some(()) })().is_some() { THEN } ..  LAST }
+
+    Verus accepts neither labelled blocks nor closures capturing `&mut`.  The rewrite keeps every
+    statement in place and changes only the control-flow carrier:
+
+        'ordered_choice: loop { ..
+            let mut alt_ok_K = false;
+            'alt_K: loop { BODY'; alt_ok_K = true; break 'alt_K; }
+            if alt_ok_K { THEN } ..  LAST
+            break 'ordered_choice; }
+
+    BODY' is BODY with the three ways a closure body returns `None` redirected to the end of the
+    inlined body: `return None` -> `break 'alt_K`, `e?;` -> `if e.is_none() { break 'alt_K; }`,
+    `try_expect!(..)` -> `try_expect_brk!(.., 'alt_K)` (a copy of the real macro text with
+    `return None` replaced).  Functions with a nested ordered choice, or any other shape, are left
+    alone and stay E8."""
+    ix = Index(src)
+    st = ix.st
+    ed = Edits(src)
+    done, skipped = [], {}
+    K = [0]
+    for f in ix.fns:
+        if f.i_body is None or f.owner != "Parser" or f.parent is not None and f.name != "rec":
+            continue
+        if any(g.parent is f for g in ix.fns):
+            lo_hi = [(g.i_attr, g.i_end) for g in ix.fns if g.parent is f]
+        else:
+            lo_hi = []
+        blocks = [i for i in _labelled_blocks(ix, f.i_body, f.i_end) if not any(a <= i <= b for a, b in lo_hi)]
+        if not blocks:
+            continue
+        ops = []
+        try:
+            for b in blocks:
+                bo, bc = b + 2, ix.pair[b + 2]
+                if any(b2 != b and bo < b2 < bc for b2 in _labelled_blocks(ix, f.i_body, f.i_end)):
+                    raise _NoE13("nested ordered choice")
+                if any(b2 < b and b < ix.pair[b2 + 2] for b2 in blocks):
+                    raise _NoE13("nested ordered choice")
+                ops.append(("ins", st[bo].s, "loop "))
+                ops.append(("ins", st[bc].s, "    break 'ordered_choice;\n        "))
+                # the alternatives: `if (|| {` .. `})().is_some() {`
+                i = bo + 1
+                nalt = 0
+                while i < bc:
+                    if st[i].t == "||" and st[i - 1].t == "(" and st[i - 2].t == "if" and st[i + 1].t == "{":
+                        a = i - 2
+                        co, cc = i + 1, ix.pair[i + 1]
+                        tail = [t.t for t in st[cc + 1:cc + 8]]
+                        if tail != [")", "(", ")", ".", "is_some", "(", ")"] or st[cc + 8].t != "{":
+                            raise _NoE13("closure is not invoked as `})().is_some() {`")
+                        if [t.t for t in st[cc - 5:cc]] != ["Some", "(", "(", ")", ")"]:
+                            raise _NoE13("closure body does not end with Some(())")
+                        K[0] += 1
+                        k = K[0]
+                        nalt += 1
+                        lab = "'alt_%d" % k
+                        ops.append(("rep", st[a].s, st[co].e, "let mut alt_ok_%d = false;\n                %s: loop {" % (k, lab)))
+                        ops.append(("rep", st[cc - 5].s, st[cc - 1].e, "alt_ok_%d = true;\n                    break %s;" % (k, lab)))
+                        ops.append(("rep", st[cc].s, st[cc + 7].e, "}\n                if alt_ok_%d" % k))
+                        j = co + 1
+                        while j < cc - 5:
+                            t = st[j]
+                            if (t.t == "||" and st[j + 1].t == "{" and st[j - 1].t == "(") or (t.k == "life" and st[j + 1].t == ":"):
+                                raise _NoE13("closure or label inside an alternative")
+                            if t.t == "return":
+                                if st[j + 1].t != "None" or st[j + 2].t != ";":
+                                    raise _NoE13("`return` other than `return None;` inside an alternative")
+                                ops.append(("rep", st[j].s, st[j + 1].e, "break %s" % lab))
+                                j += 3
+                                continue
+                            if t.t == "try_expect" and st[j + 1].t == "!" and st[j + 2].t == "(":
+                                q = ix.pair[j + 2]
+                                ops.append(("rep", st[j].s, st[j].e, "try_expect_brk"))
+                                ops.append(("ins", st[q].s, ", %s" % lab))
+                                j = q + 1
+                                continue
+                            if t.t == "?":
+                                if st[j + 1].t != ";" or st[j - 1].t != ")":
+                                    raise _NoE13("`?` not of the form `call(..)?;`")
+                                p = ix.pair[j - 1]
+                                if st[p - 1].k != "id":
+                                    raise _NoE13("`?` on something that is not a call")
+                                s0 = p - 1
+                                if st[p - 2].t == "." and st[p - 3].t in ("self", "parser"):
+                                    s0 = p - 3
+                                if st[s0 - 1].t not in (";", "{", "}"):
+                                    raise _NoE13("`?` inside a larger expression")
+                                ops.append(("ins", st[s0].s, "if "))
+                                ops.append(("rep", st[j].s, st[j + 1].e, ".is_none() { break %s; }" % lab))
+                                j += 2
+                                continue
+                            j += 1
+                        i = cc + 9
+                        continue
+                    i += 1
+                if nalt == 0:
+                    raise _NoE13("no alternative closure found")
+        except _NoE13 as e:
+            top = f if f.parent is None else f.parent
+            skipped[top.key] = str(e)
+            continue
+        for op in ops:
+            if op[0] == "ins":
+                ed.insert(op[1], op[2])
+            else:
+                ed.replace(op[1], op[2], op[3])
+        top = f if f.parent is None else f.parent
+        if top.key not in done:
+            done.append(top.key)
+    report["E13_rewritten_fns"] = done
+    report["E13_left_as_E8"] = skipped
+    out = ed.apply()
+    if done:
+        # try_expect_brk!: the real try_expect! macro text with `return None` redirected to a label
+        m = re.search(r"macro_rules!\s*try_expect\s*\{(?:[^{}]|\{(?:[^{}]|\{(?:[^{}]|\{[^{}]*\})*\})*\})*\}", out)
+        if not m:
+            raise Lost("E13: macro try_expect! not found")
+        mt = m.group(0)
+        if mt.count("return None;") != 1 or mt.count("$diags:expr) =>") != 1:
+            raise Lost("E13: macro try_expect! has an unexpected shape")
+        mt = mt.replace("macro_rules! try_expect", "macro_rules! try_expect_brk", 1)
+        mt = mt.replace("$diags:expr) =>", "$diags:expr, $label:lifetime) =>", 1).replace("return None;", "break $label;", 1)
+        out = out[:m.end()] + "\n#[allow(unused_macros)]\n" + mt + out[m.end():]
+    return out
+
+
 def e8_ordered_choice(src, report):
-    """Functions containing a labelled ordered-choice block are external."""
+    """Functions (still) containing a labelled ordered-choice block are external."""
     ix = Index(src)
     ext = []
     for f in ix.fns:
         if f.i_body is None or f.owner != "Parser":
             continue
-        if "'ordered_choice" in ix.text(f.i_body, f.i_end):
+        if _labelled_blocks(ix, f.i_body, f.i_end + 1):
             top = f
             while top.parent is not None:
                 top = top.parent
@@ -272,6 +417,8 @@ def extract(gen_src):
         s = e10_derived_clone(s, report)
         s = e12_structural(s, report)
         s = e11_children_next(s, report)
+        if E13_ENABLED:
+            s = e13_ordered_choice(s, report)
         s, ext = e8_ordered_choice(s, report)
     except LexError as e:
         raise Lost("lexing emitted text failed: %s" % e)
